@@ -12,6 +12,7 @@ from ..cfg import cfg_of
 from ..model import FunctionInfo, ClassInfo, AnalysisError, BUILTIN_EXC_PARENTS
 from ..report import Ctx
 from ..util import norm, fn_body_nodes, walk_local, kwarg, parents
+from ..pat import Snips
 from .common import names_in
 from .c07 import items_loop_info, enclosing_loops
 
@@ -152,82 +153,148 @@ def rule_totality(ctx: Ctx, G: CallGraph):
         ctx.check(ok, "IFC-3", f, f.node, f"{k}.prob returns 0 for foreign events", "", f"{k}.prob is not total")
 
 
+def _prod(*atoms: str):
+    """normal form of the product of the given atoms (each to the first power)."""
+    return {tuple(sorted((a, 1) for a in atoms)): Fraction(1)}
+
+
+def _inside(node: ast.AST, container: Optional[ast.AST]) -> bool:
+    return container is not None and any(node is x for x in ast.walk(container))
+
+
+def role_text(S: Snips, node: ast.AST, n: int = 40) -> str:
+    """source text of `node` in which every local / comprehension variable is written `_` (parameters, module-level names, builtins
+    and attribute names stay): obligation keys and messages describe the structure and not the spelling of locals."""
+    class _Anon(ast.NodeTransformer):
+        def visit_Name(self, x):
+            return x if x.id in S.literals else ast.copy_location(ast.Name(id="_", ctx=x.ctx), x)
+    import copy
+    return norm(_Anon().visit(copy.deepcopy(node)), n)
+
+
 def rule_forms(ctx: Ctx):
+    """every form is stated over ROLES bound structurally: the (event, mass) pair is whatever the items()-loop unpacks, the
+    accumulator is whatever the accumulation statement subscripts, etc.; parameters (self, other, num, projection, function,
+    predicate, real_function, element_probs) are part of the interface and are literal."""
     P = ctx.P
     FD = P.cls("distributions.distributions.FiniteDistribution")
+    ITEMS_LOOP = "for e, p in self.items():\n    REST"
 
     def acc_of(f: FunctionInfo):
         return [n for n in ast.walk(f.node) if isinstance(n, ast.AugAssign) and isinstance(n.op, ast.Add) and isinstance(n.target, ast.Subscript)]
 
-    # marginalize
+    def loops_of_(f: FunctionInfo):
+        return [n for n in ast.walk(f.node) if isinstance(n, ast.For)]
+
+    # marginalize: the first loop enumerates (e, p) of self; the first accumulation is acc[projection(e)] += p
     f = FD.methods["marginalize"]
+    S = Snips(f)
+    proj = f.positional_params[1]
     a = acc_of(f)
-    lp = [n for n in ast.walk(f.node) if isinstance(n, ast.For)]
-    inf = items_loop_info(lp[0]) if lp else None
-    ok = bool(a) and inf is not None and inf[0] == "self" and ast.unparse(a[0].target.slice) == f"projection({inf[3]})" and ast.unparse(a[0].value) == inf[4]
+    lp = loops_of_(f)
+    env = S.m(ITEMS_LOOP, lp[0]) if lp else None
+    ok = bool(a) and env is not None and _inside(a[0], lp[0]) and S.m(f"acc[{proj}(e)] += p", a[0], env) is not None
     ctx.check(ok, "ALG-2", f, a[0] if a else f.node, "marginalize: mass of projection(e) accumulates p(e)", "", "marginalize does not sum the probabilities of merged events")
     # chain
     f = FD.methods["chain"]
+    S = Snips(f)
+    fun = f.positional_params[1]
     a = acc_of(f)
     lps = enclosing_loops(f, a[0]) if a else []
     ok = False
     if a and len(lps) == 2:
-        i0, i1 = items_loop_info(lps[0]), items_loop_info(lps[1])
-        nd = [n for n in ast.walk(lps[0]) if isinstance(n, ast.Assign) and ast.unparse(n.value) == f"function({i0[3]})"] if i0 else []
-        ok = i0 is not None and i1 is not None and i0[0] == "self" and bool(nd) and i1[0] == ast.unparse(nd[0].targets[0]) \
-            and ast.unparse(a[0].target.slice) == i1[3] and alg.normalise(a[0].value) == {tuple(sorted(((i0[4], 1), (i1[4], 1)))): Fraction(1)}
+        env = S.m(ITEMS_LOOP, lps[0])
+        nd, env = S.first(f"inner = {fun}(e)", env, within=lps[0]) if env is not None else (None, None)
+        env = S.m("for ne, np_ in inner.items():\n    REST", lps[1], env) if env is not None else None
+        ok = env is not None and S.m("acc[ne]", a[0].target, env) is not None and alg.normalise(a[0].value) == _prod(env["p"], env["np_"])
     ctx.check(ok, "ALG-2", f, a[0] if a else f.node, "chain: p(y) += p(x) * p_f(y | x)", "", "chain is not the law of total probability")
     # condition
     f = FD.methods["condition"]
-    src = ast.unparse(f.node)
-    st = [n for n in ast.walk(f.node) if isinstance(n, ast.Assign) and isinstance(n.targets[0], ast.Subscript) and ast.unparse(n.targets[0].value) == "dist"]
-    ok = bool(st) and alg.normalise(st[0].value) == {tuple(sorted((("p", 1), ("weight", 1)))): Fraction(1)} and "weight = predicate(e)" in src
+    S = Snips(f)
+    pred = f.positional_params[1]
+    lp = loops_of_(f)
+    env = S.m(ITEMS_LOOP, lp[0]) if lp else None
+    _, env = S.first(f"weight = {pred}(e)", env, within=lp[0]) if env is not None else (None, None)
+    # the unnormalised posterior: the first store `post[e] = ...` (post a plain name)
+    st = [n for n in ast.walk(f.node) if isinstance(n, ast.Assign) and isinstance(n.targets[0], ast.Subscript) and isinstance(n.targets[0].value, ast.Name)]
+    st = [n for n in st if n.targets[0].value.id == st[0].targets[0].value.id]
+    env2 = S.m("post[e] = E_mass", st[0], env) if st and env is not None else None
+    ok = env2 is not None and _inside(st[0], lp[0]) and alg.normalise(env2["mass"]) == _prod(env2["p"], env2["weight"])
     ctx.check(ok, "ALG-2", f, st[0] if st else f.node, "condition: unnormalised mass = p(e) * likelihood(e)", "", "conditioning does not multiply prior by likelihood")
-    nm = [n for n in ast.walk(f.node) if isinstance(n, ast.AugAssign) and ast.unparse(n.target) == "norm"]
-    ok = bool(nm) and ast.unparse(nm[0].value) == "dist[e]" and "{e: p / norm for e, p in dist.items()}" in src
+    # the normaliser: the name that accumulates post[e]; every accumulation into it is of that form, and the result is post / normaliser
+    tot, env3 = S.first("total += post[e]", env2, within=lp[0]) if env2 is not None else (None, None)
+    nm = [n for n in ast.walk(f.node) if isinstance(n, ast.AugAssign) and isinstance(n.target, ast.Name) and env3 is not None and n.target.id == env3["total"]]
+    ok = tot is not None and bool(nm) and nm[0] is tot and S.has("{ce: cp / total for ce, cp in post.items()}", {k: env3[k] for k in ("total", "post")})
     ctx.check(ok, "ALG-2", f, nm[0] if nm else f.node, "condition: normalised by the sum of the retained masses", "", "conditioning is not normalised by its own total")
-    ctx.check("if weight > 0" in src, "ALG-2", f, f.node, "condition: zero-likelihood events are dropped", "", "zero-likelihood events are kept")
+    gd = S.find("if weight > 0:\n    REST", env, within=lp[0]) if env is not None else []
+    ok = bool(gd) and (not st or env2 is None or any(_inside(st[0], g) for g, _ in gd))
+    ctx.check(ok, "ALG-2", f, f.node, "condition: zero-likelihood events are dropped", "", "zero-likelihood events are kept")
     # joint
     f = FD.methods["joint"]
+    S = Snips(f)
+    oth = f.positional_params[1]
     dc = [n for n in ast.walk(f.node) if isinstance(n, ast.DictComp)]
-    ok = False
-    if dc and len(dc[0].generators) == 2:
-        g0, g1 = dc[0].generators
-        t0, t1 = [e.id for e in g0.target.elts], [e.id for e in g1.target.elts]
-        ok = ast.unparse(g0.iter) == "self.items()" and ast.unparse(g1.iter) == "other.items()" and ast.unparse(dc[0].key).replace(" ", "") == f"({t0[0]},{t1[0]})" \
-            and alg.normalise(dc[0].value) == {tuple(sorted(((t0[1], 1), (t1[1], 1)))): Fraction(1)}
+    env = S.m(f"{{(a, b): E_mass for a, pa in self.items() for b, pb in {oth}.items()}}", dc[0]) if dc else None
+    ok = env is not None and alg.normalise(env["mass"]) == _prod(env["pa"], env["pb"])
     ctx.check(ok, "ALG-2", f, dc[0] if dc else f.node, "joint: p(a, b) = p(a) * q(b) over all pairs (inner iterable re-evaluated per outer event)", "",
               "joint is not the product measure over all pairs (or the inner items() is not re-evaluated for each outer event)")
     # or / mul / and / expectation / normalize
     f = FD.methods["__or__"]
+    S = Snips(f)
+    oth = f.positional_params[1]
     a = acc_of(f)
-    its = [items_loop_info(l) for l in ast.walk(f.node) if isinstance(l, ast.For)]
-    ok = len(a) == 2 and sorted(i[0] for i in its if i) == ["other", "self"] and all(ast.unparse(x.value) == "p" and ast.unparse(x.target.slice) == "e" for x in a)
+    lps = loops_of_(f)
+    its = [l for l in lps if items_loop_info(l)]
+    ok = len(a) == 2 and len(its) == 2
+    if ok:
+        env = {}
+        for recv in ("self", oth):
+            hit = [(l, e) for l in its for e in [S.m(f"for e, p in {recv}.items():\n    REST", l)] if e is not None]
+            mine = [x for x in a if hit and _inside(x, hit[0][0])]
+            # the pair (e, p) is local to each loop; the accumulator is the same object in both
+            e2 = S.m("acc[e] += p", mine[0], {**hit[0][1], **env}) if len(hit) == 1 and len(mine) == 1 else None
+            if e2 is None:
+                ok = False
+                break
+            env = {"acc": e2["acc"]}
     ctx.check(ok, "ALG-2", f, a[0] if a else f.node, "|: masses of both operands are added pointwise", "", "mixture does not add both operands' masses pointwise")
     f = FD.methods["__mul__"]
+    S = Snips(f)
+    num = f.positional_params[1]
     dc = [n for n in ast.walk(f.node) if isinstance(n, ast.DictComp)]
-    ok = bool(dc) and alg.normalise(dc[0].value) == {tuple(sorted((("num", 1), ("p", 1)))): Fraction(1)} and ast.unparse(dc[0].generators[0].iter) == "self.items()"
+    env = S.m("{e: E_mass for e, p in self.items()}", dc[0]) if dc else None
+    ok = env is not None and alg.normalise(env["mass"]) == _prod(num, env["p"])
     ctx.check(ok, "ALG-2", f, dc[0] if dc else f.node, "*: every mass is scaled by num", "", "scaling changed")
     f = FD.methods["__and__"]
-    src = ast.unparse(f.node)
-    ok = "for e in set(self.support) & set(other.support)" in src and "newdist[e] += self.score(e)" in src and "newdist[e] += other.score(e)" in src \
-        and "norm += math.exp(newdist[e])" in src and "math.exp(l - lognorm)" in src
-    ctx.check(ok, "ALG-2", f, f.node, "&: renormalised pointwise product (sum of log-scores) on the common support", "", "conjunction changed")
+    S = Snips(f)
+    oth = f.positional_params[1]
+    lp, env = S.first(f"for e in set(self.support) & set({oth}.support):\n    REST")
+    sol = S.solve(["logmass[e] += self.score(e)", f"logmass[e] += {oth}.score(e)", "total += math.exp(logmass[e])"], env, within=lp) if lp is not None else None
+    sol = S.solve(["logtotal = math.log(total)", "{ce: math.exp(cl - logtotal) for ce, cl in logmass.items()}"], sol[0]) if sol is not None else None
+    ctx.check(sol is not None, "ALG-2", f, f.node, "&: renormalised pointwise product (sum of log-scores) on the common support", "", "conjunction changed")
     f = FD.methods["expectation"]
+    S = Snips(f)
+    rf = f.positional_params[1]
     a = [n for n in ast.walk(f.node) if isinstance(n, ast.AugAssign)]
-    ok = bool(a) and alg.normalise(a[0].value) == {tuple(sorted((("p", 1), ("real_function(e)", 1)))): Fraction(1)}
+    lp = loops_of_(f)
+    env = S.m(ITEMS_LOOP, lp[0]) if lp else None
+    env = S.m("acc += E_term", a[0], env) if a and env is not None else None
+    ok = env is not None and _inside(a[0], lp[0]) and alg.normalise(env["term"]) == _prod(env["p"], f"{rf}({env['e']})") and S.has("return acc", {"acc": env["acc"]})
     ctx.check(ok, "ALG-2", f, a[0] if a else f.node, "expectation: sum of f(e) * p(e)", "", "expectation is not the probability-weighted sum")
     f = FD.methods["normalize"]
-    src = ast.unparse(f.node)
-    ok = "total = sum(self.values())" in src and "{e: p / total for e, p in self.items()}" in src
+    ok = Snips(f).solve(["total = sum(self.values())", "{e: p / total for e, p in self.items()}"]) is not None
     ctx.check(ok, "ALG-2", f, f.node, "normalize: every mass divided by the total", "", "normalize changed")
     sm = P.method("SoftmaxDistribution", "__init__")
-    src = ast.unparse(sm.node)
-    ok = "max_score = max(scores.values())" in src and "Z = sum([math.exp(s - max_score) for s in scores.values()])" in src and "math.exp(s - max_score) / Z" in src
+    ok = Snips(sm).solve(["top = max(scores.values())", "Z = sum([math.exp(s - top) for s in scores.values()])",
+                          "{ce: math.exp(cs - top) / Z for ce, cs in scores.items()}"]) is not None
     ctx.check(ok, "ALG-2", sm, sm.node, "softmax: exp(s - max) / sum exp(s - max) (shift-invariant, normalised)", "", "softmax changed")
     fp = P.method("DictDistribution", "from_pairs")
+    S = Snips(fp)
+    pairs = fp.positional_params[1]
     a = acc_of(fp)
-    ok = bool(a) and ast.unparse(a[0].value) == "p" and ast.unparse(a[0].target.slice) == "e"
+    lp = enclosing_loops(fp, a[0]) if a else []
+    env = S.m(f"for e, p in {pairs}:\n    REST", lp[0]) if len(lp) == 1 else None
+    ok = env is not None and S.m("acc[e] += p", a[0], env) is not None
     ctx.check(ok, "ALG-2", fp, a[0] if a else fp.node, "from_pairs: repeated events accumulate their masses", "", "from_pairs overwrites repeated events")
 
 
@@ -257,31 +324,40 @@ def rule_one_shot(ctx: Ctx):
                         inner_iters.append((sub.iter, sub))
                     if isinstance(sub, (ast.ListComp, ast.SetComp, ast.DictComp, ast.GeneratorExp)):
                         inner_iters += [(g.iter, sub) for g in sub.generators]
+            S = Snips(f) if inner_iters else None
             for it, where in inner_iters:
                 n += 1
                 if isinstance(it, ast.Name) and it.id in binds:
-                    ctx.violation("GEN-1", f, where, f"inner iteration over `{it.id}`",
-                                  f"`{it.id}` is bound once to `{norm(binds[it.id].value, 40)}`, which is a generator for some kinds (uniform, deterministic, generic "
+                    bound = role_text(S, binds[it.id].value)
+                    ctx.violation("GEN-1", f, where, f"inner iteration over a name bound once to `{bound}`",
+                                  f"the inner iterable is a local bound once to `{bound}`, which is a generator for some kinds (uniform, deterministic, generic "
                                   f"finite distributions); re-iterating it inside another iteration yields nothing after the first pass")
                 else:
-                    ctx.passed("GEN-1", f, where, f"inner iterable `{norm(it, 40)}`", "re-evaluated per outer pass")
+                    ctx.passed("GEN-1", f, where, f"inner iterable `{role_text(S, it)}`", "re-evaluated per outer pass")
     return n
 
 
 def rule_sampling(ctx: Ctx):
     P = ctx.P
     f = P.method("distributions.distributions.FiniteDistribution", "sample")
-    src = ast.unparse(f.node)
-    ok = "if len(support) == 1" in src and "return support[0]" in src
-    ctx.check(ok, "SMP-1", f, f.node, "one-point distributions return their sole event", "", "one-point shortcut changed")
+    S = Snips(f)
+    rng = "rng"
     ch = [c for c in ast.walk(f.node) if isinstance(c, ast.Call) and isinstance(c.func, ast.Attribute) and c.func.attr == "choices"]
-    ok = bool(ch) and ast.unparse(ch[0].func.value) == "rng" and ast.unparse(kwarg(ch[0], "population")) == "support" and ast.unparse(kwarg(ch[0], "weights")) == "tuple(self.probs)"
+    # the population: the local handed to choices(population=...); it is the role every other obligation speaks about
+    popn = kwarg(ch[0], "population") if ch else None
+    env = {"pop": popn.id} if isinstance(popn, ast.Name) else None
+    if env is None:
+        sol = S.solve(["pop = self.support", "if len(pop) == 1:\n    return pop[0]"])
+        env = {"pop": sol[0]["pop"]} if sol is not None else None
+    ok = env is not None and S.has("if len(pop) == 1:\n    return pop[0]", env)
+    ctx.check(ok, "SMP-1", f, f.node, "one-point distributions return their sole event", "", "one-point shortcut changed")
+    ok = bool(ch) and env is not None and rng in S.literals and S.m(f"{rng}.choices(population=pop, weights=tuple(self.probs), REST=ANY)", ch[0], env) is not None
     ctx.check(ok, "SMP-1", f, ch[0] if ch else f.node, "draw = rng.choices(population=support, weights=probs)", "", "sampling does not draw from the supplied generator with the support and its probabilities")
     pr = P.method("distributions.distributions.FiniteDistribution", "probs")
-    ok = "self.prob(e) for e in self.support" in ast.unparse(pr.node)
+    ok = Snips(pr).has("(self.prob(e) for e in self.support)")
     ctx.check(ok, "SMP-1", pr, pr.node, "weights are prob(e) in the iteration order of the support", "", "weights are not aligned with the support's order")
-    sup0 = [n for n in ast.walk(f.node) if isinstance(n, ast.Assign) and ast.unparse(n.targets[0]) == "support"]
-    ok = bool(sup0) and ast.unparse(sup0[0].value) == "self.support"
+    sup0 = [n for n in ast.walk(f.node) if isinstance(n, ast.Assign) and isinstance(n.targets[0], ast.Name) and env is not None and n.targets[0].id == env["pop"]]
+    ok = bool(sup0) and S.m("pop = self.support", sup0[0], env) is not None
     ctx.check(ok, "SMP-1", f, sup0[0] if sup0 else f.node, "population is the distribution's own support", "", "population is not self.support")
     for k, want in (("UniformDistribution", "rng.choice(self._support)"), ("DeterministicDistribution", "self.value")):
         m = P.method(k, "sample")
